@@ -1024,7 +1024,23 @@ static void add_console_line (interactive_t *ip, const char *line_buffer, size_t
     return;
 
   int len = (int)(line_length > 0 ? line_length - 1 : 0); /* Exclude null terminator */
-  if (len <= 0 || ip->text_end + len >= MAX_TEXT)
+  if (len <= 0)
+    return;
+  if (ip->text_end + len >= MAX_TEXT && ip->text_start > 0)
+    {
+      /* make room: shift out the commands that have already been executed */
+      memmove (ip->text, ip->text + ip->text_start, ip->text_end - ip->text_start + 1);
+      ip->text_end -= ip->text_start;
+      ip->text_start = 0;
+    }
+  if (ip->text_end + len >= MAX_TEXT && !cmd_in_buf (ip))
+    {
+      /* an unfinished line fills the buffer: discard it (over-long line),
+       * otherwise no later input would ever fit again */
+      ip->text_start = ip->text_end = 0;
+      ip->text[0] = '\0';
+    }
+  if (ip->text_end + len >= MAX_TEXT)
     return;
 
   /* Convert newlines to null terminators for command parsing */
